@@ -819,9 +819,74 @@ def correspond_prime(ctx, mism):
                 backends=['autoref', 'cudd'], max_bits=max_bits)
 
 
+def late_clash_probe(backend, order):
+    """Identifiers declared in SEPARATE calls of an Automaton whose names are
+    a bit of one another (an integer x and a Boolean x_0, one of them a
+    constant): either the later declaration is refused, or the identifiers
+    are independent for priming and classification.  Returns None or what is
+    wrong."""
+    import omega.symbolic.temporal as trl
+    import omega.symbolic.prime as prm
+    aut = trl.Automaton()
+    bc.set_backend(aut, backend)
+    try:
+        if order == 'var_then_const':
+            aut.declare_variables(x=(0, 3))
+            aut.declare_constants(x_0='bool')
+        elif order == 'const_then_var':
+            aut.declare_constants(x_0='bool')
+            aut.declare_variables(x=(0, 3))
+        elif order == 'const_then_const':
+            aut.declare_constants(x=(0, 3))
+            aut.declare_constants(x_0='bool')
+        else:
+            aut.declare_variables(x=(0, 3))
+            aut.declare_variables(x_0='bool')
+    except ValueError:
+        return None             # refused: nothing to alias
+    bad = []
+    if not bc.naming_ok(aut):
+        bad.append('two identifiers share a bit name')
+    u = aut.add_expr('x = 1')
+    sup = sorted(aut.support(u))
+    if sup != ['x']:
+        bad.append(f'support(x = 1) = {sup}')
+    v = aut.add_expr('x_0')
+    if aut.add_expr('(x = 1) => x_0') == aut.true:
+        bad.append('(x = 1) => x_0 is valid: x_0 is a bit of x')
+    try:
+        w = prm.prime(aut.add_expr(r'(x = 2) \/ x_0'), aut)
+        sw = sorted(aut.support(w))
+        flex_x = prm.is_variable('x', aut)
+        flex_b = prm.is_variable('x_0', aut)
+        exp = sorted([("x'" if flex_x else 'x'),
+                      ("x_0'" if flex_b else 'x_0')])
+        if sw != exp:
+            bad.append(f'support(prime((x = 2) \\/ x_0)) = {sw}, '
+                       f'expected {exp}')
+    except Exception as e:
+        bad.append(f'prime raised {e!r}')
+    del u, v
+    return bad or None
+
+
 def correspond(ctx):
     mism = []
     ctx.cov['samples'] = []
+    for backend in ('autoref', 'cudd'):
+        for order in ('var_then_const', 'const_then_var', 'const_then_const',
+                      'var_then_var'):
+            try:
+                r = late_clash_probe(backend, order)
+            except Exception as e:
+                r = [f'raised {e!r}']
+            if r:
+                mism.append(Mismatch(
+                    'an integer x and a Boolean x_0 declared in separate '
+                    'calls are neither refused nor independent: '
+                    + '; '.join(r[:3]),
+                    dict(kind='late_clash', backend=backend, order=order),
+                    impl=r, property_fails=True))
     a = correspond_decl(ctx, mism)
     b = correspond_prime(ctx, mism)
     ctx.cov['exhaustive'] = (
@@ -872,6 +937,18 @@ def check_case(case):
                                               ('width', 'signed', 'limits',
                                                'var_bits')},
                            replay_cmd='./check C18 --replay <this file>')
+        return None
+    if case.get('kind') == 'late_clash':
+        try:
+            r = late_clash_probe(case['backend'], case['order'])
+        except Exception as e:
+            r = [f'raised {e!r}']
+        if r:
+            return Failing(
+                'an integer x and a Boolean x_0 declared in separate calls '
+                f'({case["order"]}) are neither refused nor independent: '
+                + '; '.join(r), case, got=r,
+                replay_cmd='./check C18 --replay <this file>')
         return None
     if case.get('kind') == 'prime':
         kd = lambda x: (x[0], x[1] if x[1] == 'bool' else tuple(x[1]))
